@@ -10,6 +10,7 @@ from __future__ import annotations
 import json
 import sys
 
+import ser
 from ser import build_graph, exc_class, num, project, ser_expr, var
 
 
@@ -79,6 +80,8 @@ def main():
         recs = []
         for qi, (x, y, z) in enumerate(item["qs"]):
             for order in range(n_orders):
+                # second scenario: names V<perm(i)>, so alphabetical order and (topological) numbering are unrelated
+                ser.set_naming("permuted", gi * 31 + qi) if order == 1 else ser.set_naming("V")
                 graph = build_graph(g, order)
                 if order == 2:
                     graph = with_history(g, graph)
@@ -91,6 +94,7 @@ def main():
                         out = {"k": "expr", "unser": f"{exc_class(exc)}: {exc}"[:160], "str": str(out["e"])[:300]}
                     if t is not None:
                         out = {"k": "expr", "e": t, "str": str(out["e"])[:300]} if semantic else {"k": "expr", "str": str(out["e"])[:120]}
+                ser.set_naming("V")
                 rec = {"id": f"{item.get('gid', gi)}:{qi}:{order}", "k": "cdo" if z else "do", "x": x, "y": y, "out": out}
                 if z:
                     rec["z"] = z
@@ -99,4 +103,5 @@ def main():
     json.dump(groups, open(dst, "w"))
 
 
-main()
+if __name__ == "__main__":
+    main()
